@@ -53,12 +53,14 @@ def plan(tier: str, seed: int) -> Plan:
             bk = (b + 2 * int(viastr)) % 3
             for bk in ([0, 1, 2] if thorough else [bk]):
               conds.append(Condition(f"apply:base={b}:viastr={viastr}:ue={ue}:basekind={bk}", "apply", H, "apply_relative",
-                                   {"unicode_escape": ue, "suffixes": 10 if thorough else 8, "offsets": 10 if thorough else 8, "basekind": bk,
+                                   {"unicode_escape": ue, "suffixes": 12 if thorough else 9, "offsets": 10 if thorough else 8, "basekind": bk,
                                     "lasts": 6 if thorough else 3, "base": b, "viastr": viastr, "maxsteps": 4 if thorough else 2}, T * 2,
                                    required=False,
                                    bounds="base shape %d with a final index from a pool, steps 0..%d, offsets {0,+-1,+-2,+-10,+-12,..}, suffixes incl. '#', "
                                           "escaped and non-ASCII tokens; via %s (enumeration: text is rendered from the integers)"
                                           % (b, 4 if thorough else 2, "JSONPointer.to(text)" if viastr else "RelativeJSONPointer.to")))
+    conds.append(Condition("tokens-once", "tokens", H, "tokens_once", {}, T, required=False,
+                           bounds="base built from 6 tokens containing a backslash or a percent sign; steps 0..2, offsets {0,+1,-1}; decoding options symbolic"))
     return Plan(
         conditions=conds,
         obligations=[lane_r_prefix()],
